@@ -6,7 +6,10 @@ packages.  `expect: fire` cases must make `check <ID>` exit 1 with a VIOLATION l
 (benign refactorings) must exit 0.  Cases live in selftest/cases/*.json.  Scratch copies are made under
 a temp dir outside /repo and /verif and removed afterwards.
 
-usage: selftest/run.py [--only C05[,C15]] [--case name] [-j N] [-v]
+The changes recorded under /verif/seeded (made by independent sub-agents, see DESIGN 10.6) are cases too: a change that breaks a
+property must make that property's check fire, a behaviour-preserving refactoring must leave all twenty checks silent.
+
+usage: selftest/run.py [--only C05[,C15]] [--case name] [--no-seeded] [-j N] [-v]
 """
 import argparse
 import concurrent.futures as cf
@@ -33,6 +36,10 @@ def run_case(case, verbose=False):
     tmp = tempfile.mkdtemp(prefix="bfsa_selftest_")
     try:
         make_copy(tmp)
+        if case.get("patch"):
+            p = subprocess.run(["patch", "-p1", "-s", "-i", os.path.join(VERIF, case["patch"])], cwd=tmp, capture_output=True, text=True)
+            if p.returncode != 0:
+                return case, "BROKEN-CASE", "patch does not apply: %s" % (p.stdout + p.stderr)[:200]
         for ed in case.get("edits", []):
             path = os.path.join(tmp, ed["file"])
             src = open(path, encoding="utf-8").read()
@@ -73,6 +80,7 @@ def main():
     ap = argparse.ArgumentParser()
     ap.add_argument("--only", default="")
     ap.add_argument("--case", default="")
+    ap.add_argument("--no-seeded", action="store_true")
     ap.add_argument("-j", type=int, default=min(16, os.cpu_count() or 4))
     ap.add_argument("-v", action="store_true")
     a = ap.parse_args()
@@ -81,6 +89,13 @@ def main():
         for c in json.load(open(f)):
             c.setdefault("source", os.path.basename(f))
             cases.append(c)
+    if not a.no_seeded:
+        for mf in sorted(glob.glob(os.path.join(VERIF, "seeded", "*", "meta.json"))):
+            m = json.load(open(mf))
+            name = os.path.basename(os.path.dirname(mf))
+            benign = m.get("kind") == "behaviour-preserving"
+            cases.append({"name": "seeded:" + name, "source": "seeded", "patch": os.path.join("seeded", name, "patch.diff"), "expect": "silent" if benign else "fire",
+                          "props": ["C%02d" % i for i in range(1, 21)] if benign else [m["property"]]})
     only = set(x.upper() for x in a.only.split(",") if x)
     if only:
         cases = [dict(c, props=[p for p in c["props"] if p in only]) for c in cases if set(c["props"]) & only]
